@@ -1296,14 +1296,24 @@ def class_family(seed, n, base_id, tables=None):
     from progs import Gen, set_, chr_, any_, alt, diff, var, bi
     rnd = random.Random(seed)
     lo, hi = 48, 57
+    # the edges of the scalar-value space: first and last scalar values and both sides of the
+    # surrogate gap (U+D7FF and U+E000 are consecutive scalar values)
+    EDGE = [0, 1, 2, 0xD7FD, 0xD7FE, 0xD7FF, 0xE000, 0xE001, 0xE002, 0x10FFFD, 0x10FFFE, 0x10FFFF]
+    mode = {"edge": False}
+
+    def pick(a_min=None):
+        if mode["edge"]:
+            xs = [x for x in EDGE if a_min is None or x >= a_min]
+            return rnd.choice(xs)
+        return rnd.randrange(lo if a_min is None else a_min, hi + 1)
 
     def atom():
         r = rnd.random()
         if r < 0.5:
             items = []
             for _ in range(rnd.choice([1, 2, 2, 3])):
-                a = rnd.randrange(lo, hi + 1)
-                b_ = rnd.randrange(a, hi + 1)
+                a = pick()
+                b_ = pick(a)
                 if rnd.random() < 0.3:
                     b_ = a
                 items.append((a, b_))
@@ -1313,13 +1323,13 @@ def class_family(seed, n, base_id, tables=None):
                 items = list(dict.fromkeys(items))
             return set_(items)
         if r < 0.7:
-            return chr_(rnd.randrange(lo, hi + 1))
+            return chr_(pick())
         if r < 0.8:
             return any_()
-        if tables is not None and r < 0.93:
+        if tables is not None and r < 0.93 and not mode["edge"]:
             return bi(rnd.choice(STABLE_BUILTINS))
-        a = rnd.randrange(lo, hi)
-        return set_([(a, rnd.randrange(a + 1, hi + 1))])
+        a = pick()
+        return set_([(a, pick(a))])
 
     def expr(d):
         if d == 0 or rnd.random() < 0.25:
@@ -1333,6 +1343,7 @@ def class_family(seed, n, base_id, tables=None):
     tries = 0
     while len(out) < n and tries < 100 * n:
         tries += 1
+        mode["edge"] = rnd.random() < 0.3
         e = expr(rnd.choice([1, 2, 2, 3]))
         env = []
         if rnd.random() < 0.3 and e["k"] in ("diff", "alt"):
@@ -1350,6 +1361,8 @@ def class_family(seed, n, base_id, tables=None):
         for a, b_ in iv:
             pts |= {a - 1, a, b_, b_ + 1}
         pts |= {47, 48, 57, 58}
+        if mode["edge"]:
+            pts |= set(EDGE)
         txt = json.dumps(e) + json.dumps([x[1] for x in env])
         used = [nm for nm in STABLE_BUILTINS if '"n": "%s"' % nm in txt] if tables else []
         for nm in used:
@@ -2371,6 +2384,19 @@ def check_C02(tier, seed):
             pid_ += 1
     if tier == "quick":
         pairs_ = rnd.sample(pairs_, min(len(pairs_), 90))
+    # the same on both sides of the surrogate gap (U+D7FF and U+E000 are consecutive scalar
+    # values; splitting must not leave an end point that is not a character)
+    gap_ = [0xD7FE, 0xD7FF, 0xE000, 0xE001]
+    grngs = [(a, b_) for i, a in enumerate(gap_) for b_ in gap_[i:]]
+    gpairs = []
+    for r1 in grngs:
+        for r2 in grngs:
+            if r1 == r2 or r1[1] < r2[0] or r2[1] < r1[0]:
+                continue
+            gpairs.append(Program(pid_, [("Init", [F.simple_rule(cat(set_([r1]), chr_(120))),
+                                                   F.simple_rule(cat(set_([r2]), chr_(121)))])], sigma=gap_ + [120], k=2))
+            pid_ += 1
+    pairs_ += gpairs if tier != "quick" else rnd.sample(gpairs, min(len(gpairs), 25))
     # one state with character, range and `_` transitions at once, overlapping in every way
     arms = F.arm_family(seed, sizes(tier, 120, 500), 500000)
     allp = progs + big + classes + pairs_ + arms
